@@ -70,7 +70,17 @@ func (m *C05) OnBlock(e *Env, blk *world.BlockRecord) {
 			m.nRetryAssign++
 		}
 		e.St.Trace(fmt.Sprintf("assign(a%d,n%d,eb=%v)", a.Att.N, len(a.Att.Members), a.InEndBlock))
+		att := a.Att.N
+		if att > 4 {
+			att = 4
+		}
 		for i, am := range a.Att.Members {
+			ql := len(sh.Queues[am.Addr])
+			if ql > 3 {
+				ql = 3
+			}
+			// coverage measure: (attempt number, committee size, tx or end block, nonces the member has left afterwards)
+			e.St.Covered(fmt.Sprintf("c05.assign.att%d.n%d.endblock=%v.left%d", att, len(a.Att.Members), a.InEndBlock, ql))
 			where := fmt.Sprintf("signing %d attempt %d member %d (%s)", a.Sig.ID, a.Att.N, am.MemberID, am.Addr)
 			if a.Reused[i] != "" {
 				e.Fail("C05", "de_reused", "", "%s was assigned nonce pair D=%X.. which was already assigned to %s", where, am.PubD[:6], a.Reused[i])
